@@ -325,6 +325,18 @@ def run_case(case, rng):
             for e, p_ in r.items():
                 d[e] = p_
         if k in ("dict", "softmax", "table") and len(r) >= 2:
+            # rng left out: the documented default is the global `random` module, so random.seed() governs the draws and
+            # sample() is the same as sample(rng=random)
+            st_ = _random.getstate()
+            _random.seed(seed)
+            dflt_a = case.call("sample()", lambda: [d.sample() for _ in range(8)], facts=dict(kind=k))
+            _random.seed(seed)
+            dflt_b = case.call("sample(rng=random)", lambda: [d.sample(rng=_random) for _ in range(8)], facts=dict(kind=k))
+            _random.setstate(st_)
+            case.count("default_generator_draws_compared")
+            if dflt_a is not case.FAIL and dflt_b is not case.FAIL:
+                case.check(dflt_a == dflt_b, "sample:default-generator-is-not-the-global-random-module",
+                           lambda: f"after random.seed({seed}): sample() gave {dflt_a!r}, sample(rng=random) gave {dflt_b!r}", kind=k)
             g_before = _random.getstate()
             multi = case.call("sample(k)", lambda: d.sample(rng=_random.Random(seed), k=5), facts=dict(kind=k))
             multi2 = case.call("sample(k)", lambda: d.sample(rng=_random.Random(seed), k=5), facts=dict(kind=k))
